@@ -208,3 +208,72 @@ def revert(alpha, order=8):
     neg, ok = extract_sine(total)
     beta = dict((j, dict((k, -v) for k, v in p.items())) for j, p in neg.items())
     return beta, ok
+
+
+# ---------------------------------------------------------------------------------------- Student t quantiles (pure python)
+def _betacf(a, b, x):
+    """continued fraction for the incomplete beta function (modified Lentz)"""
+    MAXIT = 500
+    EPS = 1e-16
+    FPMIN = 1e-300
+    qab, qap, qam = a + b, a + 1.0, a - 1.0
+    c = 1.0
+    d = 1.0 - qab * x / qap
+    if abs(d) < FPMIN:
+        d = FPMIN
+    d = 1.0 / d
+    h = d
+    for m in range(1, MAXIT + 1):
+        m2 = 2 * m
+        aa = m * (b - m) * x / ((qam + m2) * (a + m2))
+        d = 1.0 + aa * d
+        if abs(d) < FPMIN:
+            d = FPMIN
+        c = 1.0 + aa / c
+        if abs(c) < FPMIN:
+            c = FPMIN
+        d = 1.0 / d
+        h *= d * c
+        aa = -(a + m) * (qab + m) * x / ((a + m2) * (qap + m2))
+        d = 1.0 + aa * d
+        if abs(d) < FPMIN:
+            d = FPMIN
+        c = 1.0 + aa / c
+        if abs(c) < FPMIN:
+            c = FPMIN
+        d = 1.0 / d
+        de = d * c
+        h *= de
+        if abs(de - 1.0) < EPS:
+            break
+    return h
+
+
+def _betai(a, b, x):
+    if x <= 0.0:
+        return 0.0
+    if x >= 1.0:
+        return 1.0
+    bt = math.exp(math.lgamma(a + b) - math.lgamma(a) - math.lgamma(b) + a * math.log(x) + b * math.log(1.0 - x))
+    if x < (a + 1.0) / (a + b + 2.0):
+        return bt * _betacf(a, b, x) / a
+    return 1.0 - bt * _betacf(b, a, 1.0 - x) / b
+
+
+def t_two_sided_tail(t, nu):
+    """P(|T| > t) for Student's t with nu degrees of freedom"""
+    return _betai(nu / 2.0, 0.5, nu / (nu + t * t))
+
+
+def t_quantile_975(nu):
+    """t with P(|T| > t) = 0.05, by bisection (|error| < 1e-10)"""
+    lo, hi = 0.5, 100.0
+    for _ in range(200):
+        mid = 0.5 * (lo + hi)
+        if t_two_sided_tail(mid, nu) > 0.05:
+            lo = mid
+        else:
+            hi = mid
+        if hi - lo < 1e-12:
+            break
+    return 0.5 * (lo + hi)
